@@ -40,6 +40,8 @@ Ops == {Op("viewprofile", "webui", "admin", "read", FALSE),
         Op("u2fsignreq", "any", "never", "tx2fa", TRUE),
         Op("webauthnbegin", "any", "never", "tx2fa", TRUE),
         Op("vippushstart", "any", "never", "tx2fa", TRUE),
+        \* completing a second factor (the VIP one-time code of the session's user): answers with the raised session cookie
+        Op("vipotp", "any", "never", "cookie", TRUE),
         Op("rolecert_auto", "adm", "automation", "signed", FALSE),
         Op("rolecert_human", "adm", "automation", "signed", FALSE),
         Op("rolerefresh", "ipcert", "never", "signed", FALSE)}
@@ -49,7 +51,8 @@ OpByName(n) == CHOOSE o \in Ops : o.name = n
 \* c = [kind, var, user, fs]   user in {"alice" (plain), "root" (admin), "auto" (automation admin), "svc"}
 Cred(k, v, u, fs) == [kind |-> k, var |-> v, user |-> u, fs |-> fs]
 NoCred == Cred("none", "none", "none", {})
-Valid(c) == \/ c.kind = "cookie" /\ c.var = "good" /\ c.fs # {}
+\* "decoy": the actor's own good cookie sent last, preceded under the same name by another user's password-only session
+Valid(c) == \/ c.kind = "cookie" /\ c.var \in {"good", "decoy"} /\ c.fs # {}
             \/ c.kind = "basic"  /\ c.var = "ok"
             \/ c.kind = "kmcert" /\ c.var = "good"
             \/ c.kind = "ipcert" /\ c.var = "inside"
@@ -87,23 +90,27 @@ G_C06_SameSite(p, o)      == (o.effects \cap {"write", "tx2fa", "cookie"} # {}) 
 G_C06_Identity(p, o)      == (o.identity # "none" /\ o.identity # "") =>
                                 (Valid(p.cred) /\ o.identity = p.cred.user /\
                                  AcceptsCred(OpByName(p.op).accepts, p.cred, p.webui))
-G_C08_Self(p, o)          == (HasEffect(o) /\ p.target = "other" /\ OpByName(p.op).other = "never") => FALSE
-G_C08_Admin(p, o)         == (HasEffect(o) /\ (p.target = "other" \/ OpByName(p.op).other = "always") /\
+G_C08_Self(p, o)          == (HasEffect(o) /\ p.target # "self" /\ OpByName(p.op).other = "never") => FALSE
+G_C08_Admin(p, o)         == (HasEffect(o) /\ (p.target # "self" \/ OpByName(p.op).other = "always") /\
                               OpByName(p.op).other \in {"admin", "adminu2f", "always"}) => IsAdmin(p.cred.user)
-G_C08_AdminU2F(p, o)      == (HasEffect(o) /\ p.target = "other" /\ OpByName(p.op).other = "adminu2f") =>
+G_C08_AdminU2F(p, o)      == (HasEffect(o) /\ p.target # "self" /\ OpByName(p.op).other = "adminu2f") =>
                               "u2f" \in Level(p.cred)
 G_C08_AutomationAdmin(p, o) == (HasEffect(o) /\ OpByName(p.op).other = "automation") => IsAutomationAdmin(p.cred.user)
 G_C08_AutomationIdentity(p, o) == (HasEffect(o) /\ OpByName(p.op).other = "automation") => p.op = "rolecert_auto"
+\* a session cookie handed out by an admitted request is the admitted user's own (never another session found in the request)
+G_C06_CookieForActor(p, o) == o.cookieUser \in {"none", p.cred.user}
 \* the effect observed is the operation's own effect (nothing else leaks out of a request)
 G_C06_OnlyOwnEffect(p, o) == o.effects \subseteq {OpByName(p.op).effect, "cookie"}
 \* non-vacuity: the plainly legitimate request works
 Legit(p) == /\ AcceptsCred(OpByName(p.op).accepts, p.cred, p.webui) /\ MayActOn(OpByName(p.op), p.cred, p.target)
             /\ p.method = "POST" /\ p.origin = "none"
+            \* raising a session needs a session: other credentials are admitted by that endpoint but have nothing to raise
+            /\ (OpByName(p.op).effect = "cookie" => p.cred.kind = "cookie")
 G_C06_LegitWorks(p, o) == Legit(p) => OpByName(p.op).effect \in o.effects
 
 Guards(p, o) == {<<"G_C06_NeedsValid", G_C06_NeedsValid(p, o)>>, <<"G_C06_KindAccepted", G_C06_KindAccepted(p, o)>>,
                  <<"G_C06_SameSite", G_C06_SameSite(p, o)>>, <<"G_C06_Identity", G_C06_Identity(p, o)>>,
-                 <<"G_C06_OnlyOwnEffect", G_C06_OnlyOwnEffect(p, o)>>, <<"G_C06_LegitWorks", G_C06_LegitWorks(p, o)>>,
+                 <<"G_C06_OnlyOwnEffect", G_C06_OnlyOwnEffect(p, o)>>, <<"G_C06_CookieForActor", G_C06_CookieForActor(p, o)>>, <<"G_C06_LegitWorks", G_C06_LegitWorks(p, o)>>,
                  <<"G_C08_Self", G_C08_Self(p, o)>>, <<"G_C08_Admin", G_C08_Admin(p, o)>>,
                  <<"G_C08_AdminU2F", G_C08_AdminU2F(p, o)>>, <<"G_C08_AutomationAdmin", G_C08_AutomationAdmin(p, o)>>,
                  <<"G_C08_AutomationIdentity", G_C08_AutomationIdentity(p, o)>>, <<"G_C10_NoPanic", ~o.panic>>}
@@ -115,15 +122,22 @@ G_C06_UnknownRoute(p, o) == HasEffect(o) => Valid(p.cred)
 Users == {"alice", "root", "auto"}
 CookieLevels == {{"pw"}, {"pw", "totp"}, {"pw", "u2f"}, {"fed"}, {"kmx509"}, {}}
 Creds == {NoCred} \cup {Cred("cookie", "good", u, fs) : u \in Users, fs \in CookieLevels}
-         \cup {Cred("cookie", v, "root", {"pw", "u2f"}) : v \in {"expired", "forged", "kind_cli"}}
+         \cup {Cred("cookie", v, "root", {"pw", "u2f"}) : v \in {"expired", "expired_just", "notyet_just", "forged", "kind_cli"}}
+         \cup {Cred("cookie", "decoy", "alice", fs) : fs \in {{"pw"}, {"pw", "u2f"}}}
          \cup {Cred("basic", v, u, {}) : v \in {"ok", "badpw"}, u \in {"alice", "root"}}
          \cup {Cred("kmcert", v, u, {}) : v \in {"good", "denied", "adminca"}, u \in {"alice", "root"}}
          \cup {Cred("ipcert", v, "svc", {}) : v \in {"inside", "outside", "outside_near", "loopback_xff"}}
 \* operations without a target parameter
-Untargeted == {"rolerefresh", "totpgen", "authorize", "showtoken", "clisend", "u2fsignreq", "webauthnbegin", "vippushstart"}
-InC06(p) == \E o \in Ops, c \in Creds, t \in {"self", "other"}, m \in {"GET", "POST"}, og \in {"none", "same", "cross"},
+Untargeted == {"vipotp", "rolerefresh", "totpgen", "authorize", "showtoken", "clisend", "u2fsignreq", "webauthnbegin", "vippushstart"}
+\* target: the actor itself, another ordinary user, or another user who is an ADMINISTRATOR (the rights that count are
+\* the requester's, never the target's)
+InC06(p) == \E o \in Ops, c \in Creds, t \in {"self", "other", "otheradmin"}, m \in {"GET", "POST"}, og \in {"none", "same", "cross"},
                wu \in {{"pw"}, {"u2f"}} :
                /\ (o.other \in {"always", "automation"} => t = "other")
+               /\ (t = "otheradmin" => (o.other \in {"adminu2f", "admin", "never"} /\ og = "none"))
+               \* completing a factor takes that factor's secret: whoever can make a browser send it cross-site already holds
+               \* the user's second factor, and what comes back goes to the user's own browser - not probed cross-site
+               /\ (o.effect = "cookie" => og # "cross")
                /\ (o.name \in Untargeted => t = "self")
                /\ p = [op |-> o.name, cred |-> c, target |-> t, method |-> m, origin |-> og, webui |-> wu]
 
@@ -138,12 +152,13 @@ Probe == /\ out = Pending
                 ok == /\ AcceptsCred(op.accepts, req.cred, req.webui) /\ MayActOn(op, req.cred, req.target)
                       /\ (op.change => req.origin # "cross") /\ (req.method = "POST" \/ ~op.change)
             IN out' = [effects |-> IF ok THEN {op.effect} ELSE {}, identity |-> IF Valid(req.cred) /\ AcceptsCred(op.accepts, req.cred, req.webui) THEN req.cred.user ELSE "none",
-                       panic |-> FALSE, class |-> IF ok THEN "2xx" ELSE "4xx"]
+                       panic |-> FALSE, class |-> IF ok THEN "2xx" ELSE "4xx",
+                       cookieUser |-> IF ok /\ op.effect = "cookie" THEN req.cred.user ELSE "none"]
          /\ UNCHANGED req
 Next == Probe
 Spec == Init /\ [][Next]_vars
 RefSatisfiesGuards == out # Pending => \A g \in Guards(req, out) : g[2]
 NoEffectWithoutCredential == (out # Pending /\ out.effects # {}) => Valid(req.cred)
-OthersOnlyByAdmins == (out # Pending /\ out.effects # {} /\ req.target = "other" /\ OpByName(req.op).other # "automation")
+OthersOnlyByAdmins == (out # Pending /\ out.effects # {} /\ req.target # "self" /\ OpByName(req.op).other # "automation")
                           => IsAdmin(req.cred.user)
 =============================================================================
